@@ -194,6 +194,19 @@ func markDeep(x interface{}, k2 string, v interface{}) interface{} {
 	return x
 }
 
+// inPlaceInterpreter is a host's own interpreter whose code works on the bindings it is given.
+type inPlaceInterpreter struct {
+	mut func(b match.Bindings) match.Bindings
+}
+
+func (i *inPlaceInterpreter) Compile(ctx context.Context, code interface{}) (interface{}, error) {
+	return nil, nil
+}
+
+func (i *inPlaceInterpreter) Exec(ctx context.Context, bs match.Bindings, props core.StepProps, code interface{}, compiled interface{}) (*core.Execution, error) {
+	return core.NewExecution(i.mut(bs)), nil
+}
+
 // permanentInPlaceProbe: FuncAction.Exec around native code that works on the very map it is given
 // (what match.Bindings' Remove, Extend, DeleteExcept do) — "whatever the code deleted, overwrote or
 // returned instead", every '!' binding present beforehand is there afterwards with its previous value.
@@ -276,6 +289,44 @@ func permanentInPlaceProbe(given map[string]interface{}) bool {
 					}
 				}
 			}
+		}
+	}
+	// the same mutators behind a custom core.Interpreter, compiled through ActionSource.Compile (a host's
+	// own native interpreter is an action like any other)
+	for _, mut := range mutators {
+		bs := match.Bindings(gen.DeepCopy(given).(map[string]interface{}))
+		before := map[string]string{}
+		for k, v := range bs {
+			if strings.HasSuffix(k, "!") {
+				before[k] = gen.Canon(v)
+			}
+		}
+		src := &core.ActionSource{Interpreter: "inplace", Source: "x"}
+		act, err := src.Compile(context.Background(), core.InterpretersMap{"inplace": &inPlaceInterpreter{mut}})
+		if err != nil || act == nil {
+			continue
+		}
+		ok := true
+		func() {
+			defer func() {
+				if r := recover(); r != nil {
+					ok = false
+				}
+			}()
+			exe, err := act.Exec(context.Background(), bs, nil)
+			if err != nil || exe == nil || exe.Bs == nil {
+				ok = false
+				return
+			}
+			for k, want := range before {
+				v, have := exe.Bs[k]
+				if !have || gen.Canon(v) != want {
+					ok = false
+				}
+			}
+		}()
+		if !ok {
+			return false
 		}
 	}
 	for _, mut := range mutators {
